@@ -158,9 +158,29 @@ pub struct Spec {
     pub min_degree: Option<usize>,
     /// bit i set = equality enabled on advice column i even if no copy needs it
     pub eq_mask: u32,
+    /// order in which the advice columns are allocated in the constraint system (indices
+    /// into `advice`; empty = in order). A column of phase p only needs *some* column of
+    /// phase p-1 to exist already, so columns need not be grouped by phase.
+    #[serde(default)]
+    pub alloc_order: Vec<usize>,
+    /// seed for redundant copy constraints between cells copied from one source (0 = none)
+    #[serde(default)]
+    pub redundant: u8,
+    /// filler cells (read by no gate) are copies of earlier outputs instead of free values
+    #[serde(default)]
+    pub filler_copies: bool,
 }
 
 impl Spec {
+    /// Allocation order of the advice columns (a permutation of their indices).
+    pub fn allocation(&self) -> Vec<usize> {
+        if self.alloc_order.len() == self.advice.len() {
+            self.alloc_order.clone()
+        } else {
+            (0..self.advice.len()).collect()
+        }
+    }
+
     pub fn max_phase(&self) -> u8 {
         self.advice.iter().map(|a| a.phase).max().unwrap_or(0)
     }
@@ -209,6 +229,12 @@ impl Spec {
         }
         if self.advice.iter().any(|a| a.unblinded) {
             f.push("unblinded");
+        }
+        {
+            let order = self.allocation();
+            if order.windows(2).any(|w| self.advice[w[0]].phase > self.advice[w[1]].phase) {
+                f.push("phases-interleaved");
+            }
         }
         for o in &self.ops {
             for s in &o.srcs {
@@ -259,6 +285,9 @@ pub enum Check {
     Chal { a: usize, b: usize },
     Lookup { inputs: Vec<(usize, Option<(usize, i64)>)>, any: bool },
     Copy { here: usize, region: usize, there: usize },
+    /// the same equality declared with the operands the other way round
+    /// (`constrain_equal(there, here)`); only used for redundant equalities
+    CopyRev { here: usize, region: usize, there: usize },
     Pinned { idx: usize, value: u64 },
     ToInstance { idx: usize, icol: usize, row: usize },
 }
@@ -270,7 +299,7 @@ impl Check {
             Check::Inst { .. } => "gate-instance",
             Check::Chal { .. } => "gate-challenge",
             Check::Lookup { .. } => "lookup",
-            Check::Copy { .. } => "copy-advice",
+            Check::Copy { .. } | Check::CopyRev { .. } => "copy-advice",
             Check::Pinned { .. } => "copy-constant",
             Check::ToInstance { .. } => "copy-instance",
         }
@@ -282,7 +311,7 @@ impl Check {
             Check::Inst { a, .. } => *a == idx,
             Check::Chal { a, b } => *a == idx || *b == idx,
             Check::Lookup { inputs, .. } => inputs.iter().any(|(a, b)| *a == idx || b.map(|b| b.0) == Some(idx)),
-            Check::Copy { here, .. } => *here == idx,
+            Check::Copy { here, .. } | Check::CopyRev { here, .. } => *here == idx,
             Check::Pinned { idx: i, .. } | Check::ToInstance { idx: i, .. } => *i == idx,
         }
     }
@@ -531,7 +560,18 @@ pub fn build_plan(spec: &Spec, wseed: u64) -> Plan {
                             if spec.advice[col].phase != 0 {
                                 continue;
                             }
-                            rp.assigns.push(Assign { col, offset: base + h, base: rand_f(&mut rng), chal: None, delta: F::ZERO, how: How::Plain });
+                            // optionally a copy of an earlier output: a cell that only the
+                            // permutation argument constrains
+                            let mut value = rand_f(&mut rng);
+                            if spec.filler_copies && !outs.is_empty() {
+                                let mut keys: Vec<usize> = outs.keys().copied().collect();
+                                keys.sort();
+                                let (r, a, v) = outs[&keys[(oi + 3 * fidx) % keys.len()]];
+                                value = v;
+                                let here = rp.assigns.len();
+                                rp.checks.push(Check::Copy { here, region: r, there: a });
+                            }
+                            rp.assigns.push(Assign { col, offset: base + h, base: value, chal: None, delta: F::ZERO, how: How::Plain });
                             h += 1;
                         }
                     }
@@ -577,6 +617,46 @@ pub fn build_plan(spec: &Spec, wseed: u64) -> Plan {
     if has_r0 {
         plan.regions[0] = region0;
     }
+    // redundant equalities: cells that are copies of one source are equal already; declaring
+    // them equal once more (either way round) must change nothing. A function of the spec only.
+    if spec.redundant != 0 {
+        let mut groups: HashMap<(usize, usize), Vec<(usize, usize)>> = HashMap::new();
+        for (ri, rp) in plan.regions.iter().enumerate() {
+            for ch in &rp.checks {
+                if let Check::Copy { here, region, there } = ch {
+                    groups.entry((*region, *there)).or_default().push((ri, *here));
+                }
+            }
+        }
+        let mut keys: Vec<_> = groups.keys().copied().collect();
+        keys.sort();
+        let mut st = spec.redundant as u64 * 0x9e37_79b9_7f4a_7c15 + 7;
+        let mut next = move || {
+            st = st.wrapping_mul(6364136223846793005).wrapping_add(1442695040888963407);
+            st >> 33
+        };
+        let mut added = 0;
+        for k in keys {
+            let g = &groups[&k];
+            if g.len() < 2 || added >= 1 + (spec.redundant as usize % 3) {
+                continue;
+            }
+            // a pair of copies, or a copy and the source itself
+            let i = next() as usize % g.len();
+            let mut j = next() as usize % g.len();
+            if j == i {
+                j = (i + 1) % g.len();
+            }
+            let (mut a, mut b) = (g[i], g[j]);
+            if a > b {
+                std::mem::swap(&mut a, &mut b);
+            }
+            // declared in the later region; `there` is assigned by then
+            let ch = if next() % 2 == 0 { Check::Copy { here: b.1, region: a.0, there: a.1 } } else { Check::CopyRev { here: b.1, region: a.0, there: a.1 } };
+            plan.regions[b.0].checks.push(ch);
+            added += 1;
+        }
+    }
     plan
 }
 
@@ -610,7 +690,7 @@ impl Plan {
         // copies where this cell is the *source*
         for rp in &self.regions {
             for ch in &rp.checks {
-                if let Check::Copy { region: r, there, .. } = ch {
+                if let Check::Copy { region: r, there, .. } | Check::CopyRev { region: r, there, .. } = ch {
                     if *r == region && *there == idx {
                         c.push("copy-advice");
                     }
@@ -687,7 +767,7 @@ impl Plan {
                             // lookup_any tables also contain the all-zero row (unassigned fixed cells)
                             && !(*any && tuple.iter().all(|v| *v == F::ZERO))
                     }
-                    Check::Copy { here, region, there } => val(r, *here) != val(*region, *there),
+                    Check::Copy { here, region, there } | Check::CopyRev { here, region, there } => val(r, *here) != val(*region, *there),
                     Check::Pinned { idx, value } => val(r, *idx) != F::from(*value),
                     Check::ToInstance { idx, icol, row } => val(r, *idx) != self.instances[*icol][*row],
                 };
@@ -767,8 +847,9 @@ impl Circuit<F> for GenCircuit {
     fn configure_with_params(meta: &mut ConstraintSystem<F>, spec: Spec) -> GenConfig {
         let constants = meta.fixed_column();
         meta.enable_constant(constants);
-        let mut advice = vec![];
-        for a in &spec.advice {
+        let mut advice_by_idx: Vec<Option<Column<Advice>>> = vec![None; spec.advice.len()];
+        for idx in spec.allocation() {
+            let a = &spec.advice[idx];
             let c = match (a.phase, a.unblinded) {
                 (0, false) => meta.advice_column(),
                 (0, true) => meta.unblinded_advice_column(),
@@ -777,15 +858,16 @@ impl Circuit<F> for GenCircuit {
                 (_, false) => meta.advice_column_in(ThirdPhase),
                 (_, true) => meta.unblinded_advice_column_in(ThirdPhase),
             };
-            advice.push(c);
+            advice_by_idx[idx] = Some(c);
         }
+        let advice: Vec<Column<Advice>> = advice_by_idx.into_iter().map(|c| c.expect("allocation order is a permutation")).collect();
         // equality: needed wherever a copy touches the column; plus mask
         let mut need_eq = vec![false; advice.len()];
         let plan = build_plan(&spec, 0);
         for rp in &plan.regions {
             for ch in &rp.checks {
                 match ch {
-                    Check::Copy { here, region, there } => {
+                    Check::Copy { here, region, there } | Check::CopyRev { here, region, there } => {
                         need_eq[rp.assigns[*here].col] = true;
                         need_eq[plan.regions[*region].assigns[*there].col] = true;
                     }
@@ -979,6 +1061,10 @@ impl Circuit<F> for GenCircuit {
                                 let other = if *r == ri { rc[*there] } else { cells[*r][*there] };
                                 region.constrain_equal(rc[*here], other)?;
                             }
+                            Check::CopyRev { here, region: r, there } => {
+                                let other = if *r == ri { rc[*there] } else { cells[*r][*there] };
+                                region.constrain_equal(other, rc[*here])?;
+                            }
                             Check::Pinned { idx, value } => region.constrain_constant(rc[*idx], F::from(*value))?,
                             _ => {}
                         }
@@ -1061,6 +1147,12 @@ pub struct Knobs {
     pub min_degree: u8,
     pub eq_mask: u8,
     pub k_extra: u8,
+    /// seed of the allocation order of the advice columns (0 = in order)
+    #[serde(default)]
+    pub alloc: u16,
+    /// seed for redundant copy constraints (0 = none)
+    #[serde(default)]
+    pub redundant: u8,
 }
 
 pub fn knobs_strategy(max_ops: usize) -> BoxedStrategy<Knobs> {
@@ -1074,9 +1166,9 @@ pub fn knobs_strategy(max_ops: usize) -> BoxedStrategy<Knobs> {
         proptest::collection::vec((any::<bool>(), 0u8..8, 0u8..8, -2i8..=2, any::<bool>()), 0..3),
         proptest::collection::vec((0u8..20, 0u8..20), 1..6),
         proptest::collection::vec(op, 1..max_ops),
-        (0u8..8, any::<u8>(), 0u8..3),
+        (0u8..8, any::<u8>(), 0u8..3, prop_oneof![1 => Just(0u16), 2 => any::<u16>()], prop_oneof![1 => Just(0u8), 2 => any::<u8>()]),
     )
-        .prop_map(|((n_advice, phases, unblinded, n_instance), gates, lookups, table, ops, (min_degree, eq_mask, k_extra))| Knobs {
+        .prop_map(|((n_advice, phases, unblinded, n_instance), gates, lookups, table, ops, (min_degree, eq_mask, k_extra, alloc, redundant))| Knobs {
             n_advice,
             phases,
             unblinded,
@@ -1088,6 +1180,8 @@ pub fn knobs_strategy(max_ops: usize) -> BoxedStrategy<Knobs> {
             min_degree,
             eq_mask,
             k_extra,
+            alloc,
+            redundant,
         })
         .boxed()
 }
@@ -1232,6 +1326,25 @@ pub fn expand(kn: &Knobs) -> Spec {
         let dst = if o.dst % 4 == 1 { Dst::ToInstance { icol: o.row as usize % n_instance } } else { Dst::None };
         ops.push(Op { kind, srcs, dst, filler: o.filler as usize % 3 });
     }
+    let alloc_order: Vec<usize> = {
+            // a pseudo-random order in which each column's previous phase is already populated
+            let n = advice.len();
+            let mut order = vec![];
+            if kn.alloc != 0 {
+                let mut st = kn.alloc as u64 * 0x9e37_79b9_7f4a_7c15 + 1;
+                let mut left: Vec<usize> = (0..n).collect();
+                let mut have = [false; 4];
+                while !left.is_empty() {
+                    let ok: Vec<usize> = left.iter().copied().filter(|i| advice[*i].phase == 0 || have[advice[*i].phase as usize - 1]).collect();
+                    st = st.wrapping_mul(6364136223846793005).wrapping_add(1442695040888963407);
+                    let pick = ok[((st >> 33) % ok.len() as u64) as usize];
+                    have[advice[pick].phase as usize] = true;
+                    left.retain(|i| *i != pick);
+                    order.push(pick);
+                }
+            }
+            order
+    };
     let mut spec = Spec {
         k: 0,
         advice,
@@ -1242,6 +1355,9 @@ pub fn expand(kn: &Knobs) -> Spec {
         ops,
         min_degree: if kn.min_degree >= 3 && kn.min_degree <= 7 { Some(kn.min_degree as usize) } else { None },
         eq_mask: kn.eq_mask as u32 | ((kn.min_degree as u32 & 7) << 8),
+        alloc_order,
+        redundant: kn.redundant,
+        filler_copies: kn.redundant & 1 == 1,
     };
     spec.k = min_k(&spec) + (kn.k_extra as u32 % 3);
     spec
